@@ -16,13 +16,13 @@ NOTE = ("Trusted: go/ssa translation and the engine's Go semantics (A-SSA), solv
         "history-induction meta-argument; all listed per run in evidence 'assumptions'. Functions of the property's anchor files that "
         "are not yet under contract are outside the claim: %s")
 CLAIMED = {
- "C01": (GENERIC % "HashMap, HashBidiMap, LinkedHashMap, TreeMap (by delegation), TreeBidiMap (all operations incl. Put), RedBlackTree (Get/Put/Clear/Keys/Values verified against ghost rank/sequence; Remove contract assumed), AVLTree (Get/Clear/Keys/Values), BTree (construction, in-node search, root split, Clear/Size/Empty). Bounded stand-in (labelled bounded in the evidence, never counted as proved): RedBlackTree.Remove, AVLTree Put/Remove and all BTree tree-level operations are executed on every Put/Remove history of a stated small scope against a model map after every step.",
-         NOTE % "the deductive claim does not cover RedBlackTree.Remove (contract assumed by its callers), AVL Put/Remove and the BTree tree-level mutators; those are covered only by the bounded stand-in.", "DESIGN.md §4 C01"),
+ "C01": (GENERIC % "HashMap, HashBidiMap, LinkedHashMap, TreeMap (by delegation), TreeBidiMap (all operations incl. Put), RedBlackTree (every operation incl. Remove verified against ghost rank/sequence), AVLTree (Get/Clear/Keys/Values), BTree (construction, in-node search, root split, Clear/Size/Empty). Bounded stand-in (labelled bounded in the evidence, never counted as proved): RedBlackTree.Remove, AVLTree Put/Remove and all BTree tree-level operations are executed on every Put/Remove history of a stated small scope against a model map after every step.",
+         NOTE % "the deductive claim does not cover AVL Put/Remove and the BTree tree-level mutators (bounded stand-in only); RedBlackTree.Remove's package-internal colour precondition is not checked at the wrappers' call sites (it is proved to be preserved by every tree operation).", "DESIGN.md §4 C01"),
  "C02": (GENERIC % "RedBlackTree and AVLTree navigation (Left/Right/Floor/Ceiling/Get over a ghost in-order node sequence with strictly ascending keys as invariant), their iterators and Keys/Values, RedBlackTree.Put preserving order, TreeMap (Min/Max/Floor/Ceiling/Keys/Values), TreeSet.Values, TreeBidiMap Keys/Values.",
-         NOTE % "AVL and B-tree mutators and RedBlackTree.Remove (order after those operations is checked by the bounded stand-in only: sorted Keys(), Floor/Ceiling/Left/Right against the model after every step); B-tree navigation.", "DESIGN.md §4 C02"),
+         NOTE % "AVL and B-tree mutators (order after those operations is checked by the bounded stand-in only: sorted Keys(), Floor/Ceiling/Left/Right against the model after every step); B-tree navigation.", "DESIGN.md §4 C02"),
  "C03": (GENERIC % "ArrayList, SinglyLinkedList and DoublyLinkedList: every operation named by the statement (Add/Append/Prepend/Insert/Remove/Set/Swap/Sort/Clear/Get/IndexOf/Contains/Size/Values) against one sequence specification, linked lists through a ghost node sequence.",
          NOTE % "ArrayList.Sort's sortedness and permutation clauses rest on the assumed slices.SortFunc contract (the list's own obligations — frame, length, short lists untouched — are proved).", "DESIGN.md §4 C03"),
- "C04": (GENERIC % "HashSet, LinkedHashSet, TreeSet: Add/Remove/Contains/Clear/Size/Values.", NOTE % "nothing of the three sets besides RedBlackTree.Remove underneath TreeSet.Remove (contract assumed).", "DESIGN.md §4 C04"),
+ "C04": (GENERIC % "HashSet, LinkedHashSet, TreeSet: Add/Remove/Contains/Clear/Size/Values.", NOTE % "nothing of the three sets.", "DESIGN.md §4 C04"),
  "C05": (GENERIC % "CircularBuffer (all capacities c>=1 and all wrap-around positions symbolically), ArrayStack, ArrayQueue, LinkedListStack, LinkedListQueue.",
          NOTE % "none of the five containers.", "DESIGN.md §4 C05"),
  "C06": (GENERIC % "BinaryHeap Push (single and bulk/Floyd heapify), Pop, Peek, Clear with heap order as invariant, minimality by an induction lemma, and the multiset clause through ghost permutations; PriorityQueue by delegation.",
@@ -32,7 +32,7 @@ CLAIMED = {
  "C09": (GENERIC % "LinkedHashMap and LinkedHashSet: the key sequence of the ordering list (ghost rank per key) changes exactly as the statement says under Put/Add/Remove/Clear; Keys/Values/iterator read that sequence.",
          NOTE % "ToJSON order (C11), Each (C14).", "DESIGN.md §4 C09"),
  "C10": (GENERIC % "HashBidiMap and TreeBidiMap, all operations (Put/Get/GetKey/Remove/Clear/Size/Keys/Values): the two inner maps are mutual inverses up to the comparators' equivalences as a representation invariant; TreeBidiMap.Put is proved through intermediate-state lemmas.",
-         NOTE % "RedBlackTree.Remove underneath TreeBidiMap (contract assumed; bounded stand-in).", "DESIGN.md §4 C10"),
+         NOTE % "nothing of the two maps.", "DESIGN.md §4 C10"),
  "C11": (GENERIC % "ToJSON/MarshalJSON and FromJSON/UnmarshalJSON of 17 containers (three lists, three sets, four stack/queue wrappers, ring, heap, priority queue, hash map, red-black tree, tree map, hash bidimap) against a ghost model of encoding/json (content of a byte string as a function of the slice; Marshal attaches it, Unmarshal reads it): ToJSON yields an array/object whose content is the abstract view, FromJSON of that content yields the same view — the round trip is the composition of the two postconditions.",
          NOTE % "A-JSON (the assumed contract of encoding/json, incl. JSON-representable elements); LinkedHashMap (two known findings: outside the verified subset and genuinely defective); BTree JSON; AVLTree JSON is verified over the assumed Put contract; TreeBidiMap.ToJSON is verified, the content of its FromJSON is not claimed.", "DESIGN.md §4 C11/C12"),
  "C12": (GENERIC % "FromJSON of the same 17 containers: on success the content is exactly what the document denotes (sets deduplicate, trees sort, ring keeps the last capacity-many values, heap order is restored, bidimap stays one-to-one) and the representation invariant holds (so every other contract applies afterwards, including after null, [] and {}); on error the abstract state is unchanged (atomicity).",
@@ -52,7 +52,7 @@ CLAIMED = {
 }
 
 CLAIMED["C07"] = (
- "Bounded, not proved: the balance invariants and comparator-call bounds of the statement are checked by executing the real Put/Remove/Get of RedBlackTree, AVLTree and BTree (orders 3..5 quick, 3..7 thorough) on every history of a stated finite scope (all Put/Remove histories up to length 5/6 over 4 keys; all insertion orders of 7/8 keys followed by all short removal sequences and further inserts; trees of up to 20-40 keys built in a fixed family of orders with every sequence of 2/3 removals and complete removal in every order of the family), with the documented shape predicate (colours and black heights / balance factors and heights / fill bounds, leaf depth, Height()) and the statement's comparator-call bound evaluated after every single operation. The deductive part is small and is reported separately in the evidence: the B-tree's order-derived fill parameters with the arithmetic lemmas that make split and merge respect the fill bounds, the in-node binary search, setParent and the root split (fill of both halves, children handed over and re-parented) are proved for all orders m >= 3. The rebalancing code itself (red-black recolouring/rotations on delete, AVL putFix/removeFix through **Node, B-tree split/rebalance recursion) could not be brought within the engine's reach in the time available; DESIGN.md §4 C07 says why.",
+ "Bounded, not proved: the balance invariants and comparator-call bounds of the statement are checked by executing the real Put/Remove/Get of RedBlackTree, AVLTree and BTree (orders 3..5 quick, 3..7 thorough) on every history of a stated finite scope (all Put/Remove histories up to length 5/6 over 4 keys; all insertion orders of 7/8 keys followed by all short removal sequences and further inserts; trees of up to 20-40 keys built in a fixed family of orders with every sequence of 2/3 removals and complete removal in every order of the family), with the documented shape predicate (colours and black heights / balance factors and heights / fill bounds, leaf depth, Height()) and the statement's comparator-call bound evaluated after every single operation. The deductive part is reported separately in the evidence: for the red-black tree the whole colour layer (equal black heights, no red node with a red child, black root — hence the documented path-length ratio), node count and parent mirror are proved to be established or preserved by NewWith, Clear, Put, Remove and FromJSON through a ghost black height; for the B-tree the order-derived fill parameters with the arithmetic lemmas that make split and merge respect the fill bounds, the in-node binary search, setParent and the root split (fill of both halves, children handed over and re-parented) are proved for all orders m >= 3. The AVL rebalancing (putFix/removeFix through **Node), the B-tree split/rebalance recursion and the comparator-call bounds of all three trees could not be brought within the engine's reach in the time available; DESIGN.md §4 C07 says why.",
  "Everything the bounded stand-in does not enumerate (larger trees, longer histories, other key types) is outside the claim; the comparator bound is checked on int keys with a counting comparator. Trusted: the Go toolchain running the test binary; the shape predicates in /verif/bounded/*.go.tmpl.",
  "DESIGN.md §4 C07")
 CATEGORY = {"C07": "exploration"}
